@@ -1504,6 +1504,13 @@ pub async fn serve_sync(
     tracing::Span::current().set_parent(context);
 
     debug!(actor_id = %their_actor_id, self_actor_id = %agent.actor_id(), "received sync request");
+    #[cfg(feature = "verif")]
+    klukai_types::verif::served_push(
+        agent.actor_id().to_bytes(),
+        their_actor_id.to_bytes(),
+        cluster_id.0,
+        agent.cluster_id().0,
+    );
     let mut codec = LengthDelimitedCodec::builder()
         .max_frame_length(100 * 1_024 * 1_024)
         .new_codec();
